@@ -118,6 +118,18 @@ def run(tier, seed):
     witnesses.append({"module": "RpcSurface.tla", "config": "one panicking handler", "violated": r["violated"]})
     if r["violated"] != "Alive":
         failures.append("RpcSurface witness did not violate Alive")
+    # VKInd: with the pruning step broken (the newest old version is not kept) the invariant must stop being inductive
+    src = open(os.path.join(SPEC, "VKInd.tla")).read()
+    bad = src.replace("MODULE VKInd", "MODULE VKIndBad").replace("keys' = (k1 \\ old) \\cup {mo}", "keys' = (k1 \\ old)")
+    if bad.count("keys' = (k1 \\ old)") != 1 or "\\cup {mo}" in bad.split("IsMax(old, mo)")[1][:40]:
+        failures.append("selftest could not build the broken VKInd module")
+    else:
+        open(os.path.join(SPEC, "VKIndBad.tla"), "w").write(bad)
+        a = common.apalache("VKIndBad.tla", "ConstSmall", "IndInit", "IndInv", 1, "vkind_bad", timeout=900)
+        os.remove(os.path.join(SPEC, "VKIndBad.tla"))
+        witnesses.append({"module": "VKInd.tla", "config": "prune drops every old version", "refuted": a["violated"]})
+        if not a["violated"]:
+            failures.append("VKInd with a broken prune is still inductive: the invariant says nothing")
     # SatLoc: a corrupted expected answer (one offset, one input value) must be rejected by the replay
     import satloc
     sl = satloc.run("quick")
